@@ -222,11 +222,11 @@ class SimplicialComplex(Hypergraph):
         """Helper function to add a simplex to a simplicial complex, without any
         check. Does not automatically update self._edge_uid"""
 
+        if None in members:
+            raise ValueError("None cannot be a node")
         self._edge[idx] = set()
         for node in members:
             if node not in self._node:
-                if node is None:
-                    raise ValueError("None cannot be a node")
                 self._node[node] = set()
                 self._node_attr[node] = self._node_attr_dict_factory()
             self._node[node].add(idx)
